@@ -267,13 +267,17 @@ func allStrings(c claim) bool {
 	return true
 }
 
+// bexpMax: upper end of the symbolic exp offset (seconds); raised by harnesses that run under the default
+// maximum lifetime of one day.
+var bexpMax int64 = 7200
+
 func bbaseline(now time.Time) *bspec {
 	sp := &bspec{now: now}
 	sp.iss = claim{kind: "str", s: zz.String("iss", 4)}
 	sp.sub = claim{kind: "str", s: zz.String("sub", 4)}
 	sp.aud = claim{kind: "str", s: zz.String("aud", 26)}
 	sp.jti = claim{kind: "str", s: zz.String("jti", 4)}
-	off := zz.Int("expoff", -3600, 7200)
+	off := zz.Int("expoff", -3600, bexpMax)
 	zz.Assume(off != 0 && off != -1)
 	sp.exp = claim{kind: "num", n: now.Unix() + off}
 	ioff := zz.Int("iatoff", -7200, 600)
@@ -292,7 +296,14 @@ func ZZ_C15_bearer_claims() {
 	if zz.Thorough() {
 		iatOpt = zz.Choice("iatopt", 2) == 1
 	}
-	w := newBearerWorld(kindA, kindB, false, idOpt, iatOpt, time.Hour)
+	// the configured maximum lifetime: one hour, or unset (the documented default of one day applies)
+	maxDur := []time.Duration{time.Hour, 0}[zz.Choice("maxdur", 2)]
+	bexpMax = 7200
+	if maxDur == 0 {
+		bexpMax = 3 * 24 * 3600
+		zz.Cover("bearer:default-maximum-lifetime", true)
+	}
+	w := newBearerWorld(kindA, kindB, false, idOpt, iatOpt, maxDur)
 	now := time.Now()
 	sp := bbaseline(now)
 	sp.key = w.keys["A"]
